@@ -10,6 +10,8 @@ dst = os.path.join(ROOT, "seeded", "%s-%s" % (pid, k))
 if os.path.isdir(src):
     os.makedirs(dst, exist_ok=True)
     for f in ("patch.diff", "demo.py", "notes.md"):
+        if f == "patch.diff" and os.path.exists(os.path.join(dst, "patch.orig.diff")):
+            continue  # rebased by hand onto a later fix: keep
         if os.path.exists(os.path.join(src, f)):
             shutil.copy(os.path.join(src, f), os.path.join(dst, f))
 p = subprocess.run([sys.executable, os.path.join(ROOT, "tools", "seedtest.py"), dst, "--props", props], stdout=subprocess.PIPE, stderr=subprocess.STDOUT)
